@@ -73,7 +73,7 @@ def volumeModelOf (scale : Nat) : Nat := if scale ≤ 4 then scale + 1 else 1
 /-- OPNMIDIplay::applySetup -/
 def applySetup (s : S) : S :=
   let vs := if s.setup.logVolumes != 0 then setVolumeScale s.live.volumeScale 2 else setVolumeScale s.live.volumeScale s.setup.volumeModel
-  let vs := if s.setup.volumeModel == 0 then s.bank.volumeModel else vs
+  let vs := if s.setup.volumeModel == 0 && s.setup.logVolumes == 0 then s.bank.volumeModel else vs
   { s with live := { s.live with
       scaleModulators := s.setup.scaleModulators != 0,
       volumeScale := vs,
@@ -116,9 +116,12 @@ def step (s : S) : Op → S × Option Int
   | .logVol v =>
     let lv := (v % 4294967296).toNat
     ({ s with setup := { s.setup with logVolumes := lv },
-              live := { s.live with volumeScale := if lv != 0 then setVolumeScale s.live.volumeScale 2 else setVolumeScale s.live.volumeScale s.setup.volumeModel } }, none)
+              live := { s.live with volumeScale := if lv != 0 then setVolumeScale s.live.volumeScale 2
+                                                   else if s.setup.volumeModel == 0 then s.bank.volumeModel
+                                                   else setVolumeScale s.live.volumeScale s.setup.volumeModel } }, none)
   | .volModel v =>
-    ({ s with setup := { s.setup with volumeModel := v },
+    -- an explicitly chosen model replaces the deprecated logarithmic-volumes switch
+    ({ s with setup := { s.setup with volumeModel := v, logVolumes := 0 },
               live := { s.live with volumeScale := if v == 0 then s.bank.volumeModel else setVolumeScale s.live.volumeScale v } }, none)
   | .chanAlloc v => ({ s with live := { s.live with chanAlloc := if v < -1 || v ≥ 3 then -1 else v } }, none)
   | .tempo x => (if x > 0 then { s with seq := { s.seq with tempo := x } } else s, none)
